@@ -40,9 +40,14 @@ NumCs(q) == CASE q = -12 -> <<"-", "3">> [] q = -6 -> <<"-", "1", ".", "5">> [] 
 
 (* the characters of the property names of the universe *)
 KeyCs(k) == CASE k = "x" -> <<"x">> [] k = "y" -> <<"y">> [] k = "o" -> <<"o">> [] k = "w" -> <<"w">>
-              [] k = "k,1" -> <<"k", ",", "1">> [] k = "z" -> <<"z">> [] k = "P" -> <<"P">> [] k = "p" -> <<"p">>
+              [] k = "k,1" -> <<"k", ",", "1">> [] k = "a" -> <<"a">> [] k = "z" -> <<"z">> [] k = "P" -> <<"P">> [] k = "p" -> <<"p">>
 (* every name that can occur as a query key or property name in the universe, in the order object keys are compared *)
-AllKeys == <<"P", "k,1", "o", "p", "w", "x", "y", "z">>
+AllKeys == <<"P", "a", "k,1", "o", "p", "w", "x", "y", "z">>
+
+(* decimal text of an array index *)
+Digit(n) == CASE n = 0 -> "0" [] n = 1 -> "1" [] n = 2 -> "2" [] n = 3 -> "3" [] n = 4 -> "4" [] n = 5 -> "5" [] n = 6 -> "6"
+              [] n = 7 -> "7" [] n = 8 -> "8" [] n = 9 -> "9"
+IdxCs(n) == IF n < 10 THEN <<Digit(n)>> ELSE <<Digit(n \div 10), Digit(n % 10)>>
 
 (* ---- percent-encoding ---- *)
 NonAlnum == {" ", "\t", "+", "%", "&", "=", ",", "|", ".", ";", "-", "[", "]", "/"}     \* of the alphabet of the universe
@@ -52,9 +57,13 @@ Pct(ch) == CASE ch = " " -> <<"%", "2", "0">> [] ch = "\t" -> <<"%", "0", "9">> 
              [] ch = ";" -> <<"%", "3", "B">> [] ch = "-" -> <<"%", "2", "D">> [] ch = "[" -> <<"%", "5", "B">>
              [] ch = "]" -> <<"%", "5", "D">> [] ch = "/" -> <<"%", "2", "F">>
 (* an encoding policy: the characters written as %XX, and whether a space is written "+" (query strings) *)
+(* alt: of the characters that MAY be written either way (RFC 3986 2.3/2.4) some -- AltSet -- are escaped as well and  *)
+(* the others stay literal, so that one text mixes escapes with literal special characters                             *)
+AltSet == {"-", ".", "=", ";"}
 EncCs(enc, cs) == Flat([i \in DOMAIN cs |-> IF cs[i] = " " /\ enc.plus THEN <<"+">>
-                                             ELSE IF cs[i] \in enc.set THEN Pct(cs[i]) ELSE <<cs[i]>>])
-NoEnc == [set |-> {}, plus |-> FALSE]
+                                             ELSE IF cs[i] \in enc.set \/ (enc.alt /\ cs[i] \in AltSet) THEN Pct(cs[i])
+                                             ELSE <<cs[i]>>])
+NoEnc == [set |-> {}, plus |-> FALSE, alt |-> FALSE]
 
 PrimCs(enc, v) == CASE v.t = "num"  -> EncCs(enc, NumCs(v.q))
                     [] v.t = "bool" -> IF v.b THEN <<"t", "r", "u", "e">> ELSE <<"f", "a", "l", "s", "e">>
@@ -126,11 +135,12 @@ UsesEscapedDelim(c, v) == Escapable(c) /\ Chars(v) \cap Delims(c, v) # {}
 (* ---- encoding policies: "min" = what a client must escape (Go's url.PathEscape / url.QueryEscape, plus the      *)
 (* cell's delimiters where they are content); "all" = every non-alphanumeric character of content escaped (RFC     *)
 (* 3986 2.3/6.2.2.2: equivalent); "rawbr" (deepObject) = as min, the brackets of the names left literal            *)
-Modes == {"min", "all", "rawbr"}
+(* "alt" = as min, and some of the optional characters escaped too (a text with escapes AND literal special characters) *)
+Modes == {"min", "all", "rawbr", "alt"}
 PathMin == {" ", "\t", "%", "|", "/", "[", "]"}
 Enc(c, v, mode) ==
-   CASE c.in = "path"  -> [set |-> IF mode = "all" THEN NonAlnum ELSE PathMin \cup Delims(c, v), plus |-> FALSE]
-     [] c.in = "query" -> [set |-> IF mode = "all" THEN NonAlnum ELSE NonAlnum \ {"-", "."}, plus |-> mode # "all"]
+   CASE c.in = "path"  -> [set |-> IF mode = "all" THEN NonAlnum ELSE PathMin \cup Delims(c, v), plus |-> FALSE, alt |-> mode = "alt"]
+     [] c.in = "query" -> [set |-> IF mode = "all" THEN NonAlnum ELSE NonAlnum \ {"-", "."}, plus |-> mode # "all", alt |-> mode = "alt"]
      [] OTHER -> NoEnc
 
 PathCs(c, name, v, e) ==
@@ -158,8 +168,13 @@ DeepPairs(prefix, o, e, br) ==
    ELSE LET k == Head(o.k) x == Head(o.v)
             rest == DeepPairs(prefix, [o EXCEPT !.k = Tail(o.k), !.v = Tail(o.v)], e, br)
             key == prefix \o br[1] \o KeyE(e, k) \o br[2] IN
-        (IF x.t = "obj" THEN DeepPairs(key, x, e, br)
-         ELSE <<Pair(key, PrimCs(e, x))>>) \o rest
+        (CASE x.t = "obj" -> DeepPairs(key, x, e, br)
+           \* an array below a deepObject: one pair per item, the index as a further bracketed name (the convention of
+           \* the library and of the qs family of encoders; OAS 3.0.3 itself defines deepObject for flat objects only)
+           [] x.t = "arr" -> Flat([i \in DOMAIN x.a |->
+                                    LET ikey == key \o br[1] \o IdxCs(i - 1) \o br[2] IN
+                                    IF x.a[i].t = "obj" THEN DeepPairs(ikey, x.a[i], e, br) ELSE <<Pair(ikey, PrimCs(e, x.a[i]))>>])
+           [] OTHER -> <<Pair(key, PrimCs(e, x))>>) \o rest
 
 (* the query pairs as character sequences (the L2 decoder model reads these) *)
 QueryPairsCs(c, name, v, e, mode) ==
